@@ -19,15 +19,24 @@ RULE = (
     "kind change / implicit<->explicit directory entry / hashed<->unhashed directory / a valued root key; "
     "directory hashes are digests of the hashed descendants (hash-consistent by construction); one side "
     "None or empty; each pair x a seeded sample of the 64 option sets (with_renames, with_unchanged, "
-    "hash_only, meta_only, meta_cmp_key=(isdir,isexec), shallow); a separate malformed stream (equal "
+    "hash_only, meta_only, meta_cmp_key in {(isdir,isexec), etag only, md5 only - the last two are None for a Meta "
+    "without the field, the shape of push._meta_checksum}, shallow); a `disk` stream: sides built through "
+    "DataIndex.open on a scratch file by a generated HISTORY (sets in random order, overwritten values, ghost "
+    "entries set and removed again by del / pop / delete_node, explicit entries on implicit directories removed "
+    "again, reads, commits, close + reopen) whose final map is the case, the model runs on final_map(history); a "
+    "`roots` stream; a separate malformed stream (equal "
     "directory hash over different children, file entries with children, directory entries without "
     "isdir metadata) where only model = implementation is required; the three _diff_* deciders on the "
-    "full abstract product 25 x 25 entries x 16 flag sets; info/ls/has_node on every node and some "
+    "full abstract product 37 x 37 entries x 32 flag sets (+ 8 x 8 metas x 4 cmp keys, 6 x 6 hashes), each "
+    "also judged by the independent key-by-key classification; info/ls/has_node on every node and some "
     "non-nodes. A diff case is non-trivial when it reports >= 2 changes of >= 2 kinds or a rename."
 )
 ASSUMPTIONS = [
-    "in-memory DataIndex (sqltrie.PyGTrie over pygtrie) with an empty storage map: no lazy loading, so "
-    "DataIndexDirError/UNKNOWN cannot arise and `with_unknown` is left out of the proved core",
+    "DataIndex in memory (PyGTrie) or SQLite backed (DataIndex.open), with an empty storage map: no lazy loading, "
+    "so DataIndexDirError/UNKNOWN cannot arise and `with_unknown` is left out of the proved core",
+    "an index is its final key -> entry map (C08_history_final_map / _final_only); on-disk sides use entries whose "
+    "observable form survives to_dict/from_dict (no mtime, no all-default Meta on an unhashed entry, no falsy "
+    "HashInfo object) so that a cached and a re-read entry look the same; delete_node is used on leaves only",
     "the default callback; `roots` other than [()] is modelled (diff_core_roots) and tied by correspondence + a "
     "restricted flat-reference oracle for prefix-free roots, but the theorems are for roots = [()]",
     "entry.key equals the key the entry is stored under",
@@ -41,7 +50,8 @@ ASSUMPTIONS = [
     "C08_swap is proved for _diff (any indexes); its composition with rename detection is checked by the oracle only",
     "set iteration order (old_items.keys() | new_items.keys()) is unobservable: outputs are compared as multisets",
     "the translator (translator/units.py units `types`, `idiff`) is trusted as far as the exhaustive decider "
-    "correspondence (25 x 25 entries x 16 flag sets against the real functions) does not exercise it",
+    "correspondence (37 x 37 entries x 32 flag sets against the real functions) does not exercise it; the "
+    "decider oracle judges the real functions independently of the translation",
 ]
 
 IMPORTS = "From Coq Require Import NArith List.\nFrom DvcData Require Import Base.PyBase Gen.PyTypes Gen.IDiff Model.Trie Model.IndexDiff."
@@ -285,6 +295,19 @@ def c_index(entries):
     if entries is None:
         return "None"
     return "(Some %s)" % clist([cpair(c_key(k), c_entry(m, h)) for k, m, h in entries])
+
+
+def c_side(entries, hist):
+    """a side of a diff case as a Coq term: the literal map, or [final_map] of its build history"""
+    if entries is None or hist is None:
+        return c_index(entries)
+    ops = []
+    for op in hist:
+        if op[0] == "set":
+            ops.append("(HSet %s %s)" % (c_key(op[1]), c_entry(op[2], op[3])))
+        elif op[0] in ("del", "pop", "delete_node"):      # delete_node is only used on leaves
+            ops.append("(HDel %s)" % c_key(op[1]))
+    return "(Some (final_map %s))" % clist(ops)
 
 
 # --------------------------------------------------------------------------------------
@@ -994,7 +1017,8 @@ def judge(ctx, case):
         if wf:
             for sig, what in oracle(old, new, code, res, hist=hist):
                 ctx.oracle_fail(sig, what, one if hist else shrink(ctx, one, sig))
-    inp = "(%s, %s, %s)" % (c_index(old), c_index(new), clist([cN(c) for c in codes]))
+    h = hist or {}
+    inp = "(%s, %s, %s)" % (c_side(old, h.get("old")), c_side(new, h.get("new")), clist([cN(c) for c in codes]))
     return (case, inp, vL(expected))
 
 
@@ -1011,20 +1035,9 @@ def shrink(ctx, one, sig):
     return {"old": old, "new": new, "code": code, "stream": one["stream"]}
 
 
-def _tick(label, _t=[None]):
-    import time
-    if os.environ.get("C08_TIMING"):
-        now = time.time()
-        with open("/tmp/c08w/timing", "a") as f:
-            f.write("%s %.1f\n" % (label, 0 if _t[0] is None else now - _t[0]))
-        _t[0] = now
-
-
 def run(ctx):
     _DISK["dir"] = ctx.fresh("disk")
-    _tick("start")
     run_deciders(ctx)
-    _tick("deciders")
 
     bundles = []
     for c in corpus_cases():
@@ -1074,16 +1087,13 @@ def run(ctx):
         ctx.count("stream:disk")
         bundles.append({"old": o2, "new": n2, "codes": codes, "stream": "disk", "hist": hist})
 
-    _tick("generate")
     items = [judge(ctx, b) for b in bundles]
-    _tick("judge")
     ctx.obligation("oracle:diff", not any(v.kind == "oracle" for v in ctx.violations),
                    f"{sum(len(b['codes']) for b in bundles if b['stream'] == 'wf')} real diffs judged by the flat "
                    "dictionary oracle (+ swap, no-hiding, rename rules, key uniqueness)")
     ctx.correspond("diff", IMPORTS, "option index * option index * list N",
                    "fun c => run_diffs (fst (fst c)) (snd (fst c)) (snd c)", items, shard=60)
 
-    _tick("correspond-diff")
     # roots other than [()]
     ritems = []
     for old, new in wf_pairs[: ctx.n(60, 600)]:
@@ -1101,7 +1111,6 @@ def run(ctx):
                    "fun c => run_diffs_roots (fst (fst (fst c))) (snd (fst (fst c))) (snd (fst c)) (snd c)", ritems,
                    shard=60)
 
-    _tick("roots")
     # info / ls / has_node
     titems = []
     for old, new in wf_pairs[: ctx.n(40, 300)]:
@@ -1117,7 +1126,6 @@ def run(ctx):
                                            c_key(k)), exp))
     ctx.count("trie-probes", len(titems))
     ctx.correspond("trie", IMPORTS, "index * key", "fun c => run_trie (fst c) (snd c)", titems)
-    _tick("trie")
 
 
 def replay_case(ctx, case):
